@@ -170,7 +170,23 @@ func (s *DiscoveryStrategy) GetRoutableEndpoints(
 			"model", modelName,
 			"error", err)
 
-		// use original endpoints as fallback
+		// only fall back to the original endpoints when the configuration allows it:
+		// none / compatible_only must never route to endpoints that do not have the model
+		switch s.options.FallbackBehavior {
+		case constants.FallbackBehaviorNone, constants.FallbackBehaviorCompatibleOnly:
+			return nil, ports.NewRoutingDecision(
+					s.Name(),
+					ports.RoutingActionRejected,
+					rejectionReason(modelEndpoints, constants.RoutingReasonDiscoveryError),
+				), domain.NewModelRoutingError(
+					modelName,
+					s.Name(),
+					"rejected",
+					len(healthyEndpoints),
+					modelEndpoints,
+					fmt.Errorf("failed to get endpoints after discovery: %w", err),
+				)
+		}
 		return healthyEndpoints, ports.NewRoutingDecision(
 			s.Name(),
 			ports.RoutingActionFallback,
